@@ -138,7 +138,30 @@ DoRemoveRule ==
        /\ Log([op |-> "RemoveRule", anchor |-> ar.anchor])
        /\ ram' = r.ram
 
+(* Life cycle (C11, C12).  Closing and reopening an on-disk index touches neither file; the   *)
+(* rules are re-supplied by the caller and held in RAM only - all of them, or with one         *)
+(* forgotten (its flag stays in the trie: pages beneath it are then refused, in both machines). *)
+RamSeq(rm) == LET a == SetToSortedSeq(DOMAIN rm) IN [j \in 1..Len(a) |-> [anchor |-> a[j], rule |-> rm[a[j]]]]
+DoReopen ==
+  /\ "Reopen" \in Ops
+  /\ \E drop \in {<<>>} \cup { <<a>> : a \in DOMAIN ram } :
+       /\ ram' = IF drop = <<>> THEN ram ELSE RamDel(ram, drop[1])
+       /\ Log([op |-> "Reopen", rules |-> RamSeq(ram')])
+  /\ st' = st /\ abs' = abs /\ ok' = TRUE
+
+(* clear(default, rules): both files back to their headers, the id counter back to zero, the  *)
+(* given rules installed as by the constructor                                                *)
+DoClear ==
+  /\ "Clear" \in Ops
+  /\ \E rules \in {<<>>} \cup { <<ar>> : ar \in AnchorRules } :
+       LET f == FreshIndex(DefRule, rules) IN
+       /\ st' = Clean(f.st) /\ ram' = f.ram
+       /\ abs' = AbsInstallRules(EmptyAbs, EmptyRam, DefRule, rules, 1)
+       /\ ok' = TRUE
+       /\ Log([op |-> "Clear", rules |-> rules])
+
 Request ==
+  \/ DoReopen \/ DoClear
   \/ DoAddPage \/ DoAddPages \/ DoAddLinks \/ DoCrawl \/ DoCreateWe \/ DoCreateWe2 \/ DoDeleteWe
   \/ DoAddPrefix \/ DoRemovePrefix \/ DoMovePrefix \/ DoAddRule \/ DoRemoveRule
 
@@ -345,12 +368,23 @@ TopInv ==
 
 (* action property: re-submitting known things allocates nothing (C19),     *)
 (* blocks never move or disappear, ids only grow (C12)                      *)
+Cleared == hist' # hist /\ hist'[Len(hist')].op = "Clear"
 Monotone ==
-  [][ /\ Len(st'.trie) >= Len(st.trie)
+  [][ Cleared \/
+      /\ Len(st'.trie) >= Len(st.trie)
       /\ (abs'.known = abs.known => Len(st'.trie) = Len(st.trie))
       /\ st'.lastId >= st.lastId
       /\ \A b \in 1..Len(st.trie) : st'.trie[b].s = st.trie[b].s /\ st'.trie[b].c = st.trie[b].c
       /\ \A w \in WeIds(abs') \ WeIds(abs) : w > st.lastId \/ w \in WeIds(abs) \cup {1}
+    ]_vars
+
+(* C11: reopening changes nothing but the rules held in RAM; clearing gives exactly the index *)
+(* the constructor gives (C12: ids start again from there)                                    *)
+LifeCycle ==
+  [][ /\ (hist' # hist /\ hist'[Len(hist')].op = "Reopen") => (st' = st /\ abs' = abs /\ DOMAIN ram' \subseteq DOMAIN ram)
+      /\ Cleared => \E rules \in {<<>>} \cup { <<ar>> : ar \in AnchorRules } :
+                      /\ st' = Clean(FreshIndex(DefRule, rules).st)
+                      /\ st'.lastId = Cardinality(WeIds(abs'))
     ]_vars
 
 =============================================================================
